@@ -520,6 +520,7 @@ def run(ck, facts):
     # C++: every fallible / nullable return shape tests the flag before it builds the value (C02.R4)
     import c02
     c02.run(C.SubCheck(ck, "R5", "", ["R4"], key_re=r"tests-flag|flag"), facts)
+    c02.run(C.SubCheck(ck, "R5", "", ["R6"], key_re=r"^result::"), facts)     # diplomat::result accessors look at their own arm / flag (C02.R6)
 
 
 def _walk_val(v):
